@@ -12,7 +12,8 @@ X64 = True
 INPROCESS = False
 RULE = ('6 base documents x every host (world and each jointed body) x '
         'jointless chains of depth 1 (all 15 non-empty content subsets of '
-        '{geom pos/quat, geom fromto, site, jointed child subtree} x 8 pose '
+        '{geom pos/quat, geom fromto, site, jointed child subtree} plus 4 subsets '
+        'with attribute-less (default-pose) elements x 8 pose '
         'modes: neither / pos / quat{generic, single-axis, un-normalised} / '
         'both{...}), depth 2 (8x8 modes), depth 3 (mode sub-alphabet; full in '
         'thorough), sibling pairs, and wrapping of existing children. Oracle: '
@@ -118,6 +119,14 @@ def _contents(doc, rng, subset):
     out += doc.site(rng)
   if 'C' in subset:
     out += doc.jointed(rng, inner=doc.jointed(rng))
+  if 'B' in subset:
+    # "bare" elements that rely on the body-origin defaults (no pos, quat or
+    # fromto attribute)
+    out += '<geom name="%s" type="box" size="0.05 0.07 0.09"/>' % doc.name('g_')
+    out += '<site name="%s"/>' % doc.name('s_')
+    out += ('<body name="%s"><joint name="%s" type="hinge" axis="0 1 0"/>'
+            '<geom name="%s" type="sphere" size="0.06"/></body>' % (
+                doc.name('jb_'), doc.name('j_'), doc.name('g_')))
   return out
 
 
@@ -305,7 +314,8 @@ def documents(tier, seed):
   modes = _modes(seed)
   sub4 = [modes[0], modes[1], modes[3], modes[5]]
   subsets = [''.join(s) for n in range(1, 5)
-             for s in itertools.combinations('GTSC', n)]
+             for s in itertools.combinations('GTSC', n)] + ['B', 'GB', 'TSB',
+                                                            'GTSCB']
   for bname, tmpl, hosts in base_docs():
     blank = {h: '' for h in hosts}
     # depth 1
